@@ -154,11 +154,11 @@ func VerifC18Keepalive() {
 	conn.sock = w
 	ctx, cancel := context.WithCancel(context.Background())
 	conn.postConnect(ctx, true)
-	if n := vPendingGo(); n >= 0 {
+	if n := vPendingGoNamed("ping"); n >= 0 {
 		if pf > 0 {
-			vAssert(n == 4, "monitor:ping-goroutine-started")
+			vAssert(n == 1, "monitor:ping-goroutine-started")
 		} else {
-			vAssert(n == 3, "monitor:no-ping-goroutine")
+			vAssert(n == 0, "monitor:no-ping-goroutine")
 		}
 	}
 	vDropPending()
